@@ -24,6 +24,9 @@ pub enum Sc20 {
     RoundRobinSeq { backends: usize, calls: usize },
     /// `batch` call futures created, then first-polled in the order given by `order` selectors
     RoundRobinConcurrent { backends: usize, batches: Vec<Vec<u16>> },
+    /// backends that do not answer on the first poll: `ops` = (start a new call and poll it once | let the
+    /// backend of a pending call answer and poll that call to completion, chosen by the selector)
+    RoundRobinOverlap { backends: usize, clones: bool, ops: Vec<(bool, u16)> },
     Hash { backends: usize, outputs: Vec<u64>, requests: Vec<u16>, default_hasher: bool },
     Retry { results: Vec<i8>, stop_at: u32, request: u64 },
 }
@@ -38,6 +41,24 @@ impl Stub for CountStub {
     type Resp = usize;
     async fn call(&self, _ctx: tarpc::context::Context, _r: u64) -> Result<usize, RpcError> {
         self.counts[self.id].fetch_add(1, Ordering::SeqCst);
+        Ok(self.id)
+    }
+}
+
+/// A backend that counts the call when it arrives and answers only once the environment released it.
+#[derive(Clone)]
+struct SlowStub {
+    id: usize,
+    counts: Arc<Vec<AtomicUsize>>,
+    released: Arc<Mutex<std::collections::BTreeSet<u64>>>,
+}
+impl Stub for SlowStub {
+    type Req = u64;
+    type Resp = usize;
+    async fn call(&self, _ctx: tarpc::context::Context, r: u64) -> Result<usize, RpcError> {
+        self.counts[self.id].fetch_add(1, Ordering::SeqCst);
+        let rel = self.released.clone();
+        futures::future::poll_fn(move |_| if rel.lock().unwrap().contains(&r) { Poll::Ready(()) } else { Poll::Pending }).await;
         Ok(self.id)
     }
 }
@@ -174,6 +195,49 @@ pub fn check(sc: &Sc20) -> CaseResult {
             }
             Ok(CaseOk { nontrivial: n >= 2 && total >= 2 * n, classes: vec!["round-robin-concurrent-futures"], excluded_known: 0 })
         }
+        Sc20::RoundRobinOverlap { backends, clones, ops } => {
+            let n = (*backends).max(1);
+            let counts = Arc::new((0..n).map(|_| AtomicUsize::new(0)).collect::<Vec<_>>());
+            let released: Arc<Mutex<std::collections::BTreeSet<u64>>> = Default::default();
+            let rr = RoundRobin::new((0..n).map(|id| SlowStub { id, counts: counts.clone(), released: released.clone() }).collect());
+            let rr2 = rr.clone();
+            let w = noop_waker();
+            let mut cx = Context::from_waker(&w);
+            let mut pending: Vec<(u64, std::pin::Pin<Box<dyn Future<Output = Result<usize, RpcError>> + '_>>)> = vec![];
+            let (mut started, mut max_overlap) = (0u64, 0usize);
+            for (start, sel) in ops {
+                if *start || pending.is_empty() {
+                    let which = if *clones && started % 2 == 1 { &rr2 } else { &rr };
+                    let mut f: std::pin::Pin<Box<dyn Future<Output = Result<usize, RpcError>> + '_>> = Box::pin(which.call(ctx, started));
+                    if let Poll::Ready(r) = f.as_mut().poll(&mut cx) {
+                        return fail(format!("call {started} completed before its backend answered: {:?}", r.map_err(|e| format!("{e:?}"))));
+                    }
+                    pending.push((started, f));
+                    started += 1;
+                    max_overlap = max_overlap.max(pending.len());
+                    let (lo, hi) = spread(&counts);
+                    if hi - lo > 1 {
+                        return fail(format!(
+                            "after {started} calls dispatched over {n} backends ({} still waiting for their backend) the per-backend counts differ by {} (min {lo}, max {hi})",
+                            pending.len(), hi - lo
+                        ));
+                    }
+                } else {
+                    let i = ((*sel as usize) * pending.len()) >> 16;
+                    let (tok, mut f) = pending.remove(i);
+                    released.lock().unwrap().insert(tok);
+                    match f.as_mut().poll(&mut cx) {
+                        Poll::Ready(Ok(id)) if id < n => {}
+                        other => return fail(format!("call {tok} did not complete after its backend answered: {:?}", other.map(|r| r.map_err(|e| format!("{e:?}"))))),
+                    }
+                    let (lo, hi) = spread(&counts);
+                    if hi - lo > 1 {
+                        return fail(format!("after a completion the per-backend counts differ by {}", hi - lo));
+                    }
+                }
+            }
+            Ok(CaseOk { nontrivial: n >= 2 && max_overlap >= 2 && started as usize >= 2 * n, classes: vec!["round-robin-overlapping-calls"], excluded_known: 0 })
+        }
         Sc20::Hash { backends, outputs, requests, default_hasher } => {
             let n = (*backends).max(1);
             let stubs: Vec<IdStub> = (0..n).map(|id| IdStub { id }).collect();
@@ -265,7 +329,7 @@ impl Prop for C20 {
         "C20"
     }
     fn rule(&self) -> String {
-        "Scenario = one of: RoundRobin over 1-7 counting backends with a generated number of sequential calls (a fixed share >= 65 calls); RoundRobin with batches of call futures created together and first-polled in a generated order; \
+        "Scenario = one of: RoundRobin over 1-7 counting backends with a generated number of sequential calls (a fixed share >= 65 calls); RoundRobin with batches of call futures created together and first-polled in a generated order; RoundRobin (also through a clone) over backends that answer only when released, so that up to 40 calls overlap in generated start/answer orders; \
          ConsistentHash over 1-7 backends with a generated BuildHasher (arbitrary 64-bit outputs incl. 0, u64::MAX, multiples of the length) or the default RandomState and request sequences with repeats; \
          Retry over a backend returning a generated result sequence with a policy declining at a generated attempt. Both tiers add a real-threads run against shared counting stubs. \
          Oracle: after every call max-min of per-backend counts <= 1; equal requests map to equal backends, index < len, no panic; the backend saw the identical request (same Arc) each attempt, the policy saw attempts 1,2,3,.. with exactly the produced results, the caller got the last result. \
@@ -284,6 +348,8 @@ impl Prop for C20 {
             2 => (1usize..=7, prop_oneof![3 => 0usize..40, 1 => 65usize..200]).prop_map(|(backends, calls)| Sc20::RoundRobinSeq { backends, calls }),
             2 => (1usize..=7, proptest::collection::vec(proptest::collection::vec(any::<u16>(), 1..12), 1..8))
                 .prop_map(|(backends, batches)| Sc20::RoundRobinConcurrent { backends, batches }),
+            2 => (1usize..=7, any::<bool>(), proptest::collection::vec((proptest::bool::weighted(0.6), any::<u16>()), 1..40))
+                .prop_map(|(backends, clones, ops)| Sc20::RoundRobinOverlap { backends, clones, ops }),
             3 => (1usize..=7, proptest::collection::vec(outs, 1..16), proptest::collection::vec(any::<u16>(), 0..40), proptest::bool::weighted(0.2))
                 .prop_map(|(backends, outputs, requests, default_hasher)| Sc20::Hash { backends, outputs, requests, default_hasher }),
             3 => (proptest::collection::vec(any::<i8>(), 1..8), 1u32..9, any::<u64>())
